@@ -538,7 +538,7 @@ class MacroProgram(ElementProgram):
         try:
             clause = ns[METAL, 'fill-slot']
         except KeyError:
-            pass
+            fill_slot = None
         else:
             if not clause.strip():
                 raise LanguageError(
@@ -557,7 +557,8 @@ class MacroProgram(ElementProgram):
                 )
 
             slots = self._use_macro[index]
-            slots.append(nodes.FillSlot(clause, slot))
+            fill_slot = nodes.FillSlot(clause, slot)
+            slots.append(fill_slot)
 
         # metal:define-macro
         try:
@@ -619,6 +620,12 @@ class MacroProgram(ElementProgram):
                 )
 
             ON_ERROR = partial(nodes.OnError, fallback, 'error')
+
+            # The content of a metal:fill-slot element is rendered in
+            # place of the slot, not where the element stands: its
+            # error handler has to go there with it.
+            if fill_slot is not None:
+                fill_slot.node = ON_ERROR(fill_slot.node)
 
         clause = ns.get((META, 'interpolation'))
         if clause in ('false', 'off'):
